@@ -1,4 +1,5 @@
 import ClvmModel.TreeHash
+import ClvmModel.TreeHashIntern
 import ClvmModel.Hash.Keccak256
 import ClvmModel.Proto.Util
 namespace Clvm.Proto
@@ -121,9 +122,41 @@ def handleTHash (args : List String) : Option String :=
       runNodeVariant variant (ofTree t)
   | _ => none
 
+/-- the same request as a source DAG of C24's interning model (`a:` and `h:` are both atoms there) -/
+def parseSDag (s : String) : Option Intern.Dag := do
+  let mut nodes : Intern.Dag := #[]
+  for item in s.splitOn ";" do
+    let i := nodes.size
+    match item.splitOn ":" with
+    | ["a", h] | ["h", h] =>
+      let b ← bytesOfHex h
+      nodes := nodes.push (.atom b)
+    | ["p", lr] =>
+      match lr.splitOn "," with
+      | [l, r] =>
+        let l ← l.toNat?
+        let r ← r.toNat?
+        if l < i ∧ r < i then nodes := nodes.push (.pair l r) else none
+      | _ => none
+    | _ => none
+  if nodes.size == 0 then none else some nodes
+
+/-- `intern24`: C24's transcription of `intern_tree` composed with `InternedTree::tree_hash`
+(`treeHashOfInterned`) — the composition theorem `C22.internThenHash` is about -/
+def runIntern24 (d : Intern.Dag) : String :=
+  match Intern.internTree d (d.size - 1) with
+  | .error e => fmtErr e
+  | .ok it =>
+    match treeHashOfInterned it with
+    | .ok h => s!"ok {hexOfBytes h} {it.atoms.length} {it.pairs.length}"
+    | .error e => fmtErr e
+
 /-- `THASHDAG <variant> <nodes>` -/
 def handleTHashDag (args : List String) : Option String :=
   match args with
+  | ["intern24", dag] => do
+    let d ← parseSDag dag
+    some (runIntern24 d)
   | [variant, dag] => do
     let t ← parseDag dag
     runNodeVariant variant t
